@@ -231,6 +231,13 @@ def run_kani_unit(prop, unit, tier, report):
     if unit.get("probe"):
         # probe crates live in /verif; they path-depend on /repo/cglue and /repo/cglue-macro, so
         # the real generator is re-run on every build.  Harness annotations come from its sources.
+        genpy = os.path.join(crate_dir, "gen.py")
+        if os.path.exists(genpy):
+            grc, gout, _ = sh([sys.executable, genpy, tier], cwd=crate_dir)
+            if grc != 0:
+                report["undecided"].append(f"{unit['name']}: probe generator failed: {gout[-800:]}")
+                return
+            srcs.append(genpy)
         lock = os.path.join(REPO, "Cargo.lock")
         if os.path.exists(lock):
             shutil.copy(lock, os.path.join(crate_dir, "Cargo.lock"))
